@@ -839,8 +839,9 @@ std::string sqf::parser::preprocessor::impl_default::instance::parse_ppinstructi
                         if (!arg.empty())
                         {
                             args.emplace_back(std::move(arg));
-                            arg_start_index = arg_index + 1;
                         }
+                        // (also past an empty parameter, or the scan never moves on)
+                        arg_start_index = arg_index + 1;
                     }
                     // Special magic for '#define macro\'
                     content = (trim(line.substr(line[arg_start_index] == ' ' ? arg_start_index + 1 : arg_start_index)));
